@@ -23,7 +23,18 @@ NOTES = ('Exit codes of ./check: 0 = all obligations of the property\'s cone dis
          'Defects of the pinned tree repaired by fix: commits are listed in known_findings.json.')
 _NOT_YET = 'verification unit not built yet in this round (see DESIGN.md section 8 for the build order)'
 NOT_APPLICABLE = {
+    'C09': ('not decided in this round (the technique could reach it, the proof was not built): it needs (i) the character-level scanner canonize_subform against a '
+            'specification function, (ii) injectivity of the fully parenthesised rendering and (iii) a tree-level alpha-equivalence lemma. What IS proved elsewhere: '
+            'unit mark shows that every key of the duplicate table is a wild-card key or the canonical text of a preprocessed tree with at most one variable and that '
+            'counters are >= 1; the soundness direction ("equal canonical forms => equal up to renaming") is the ASSUMED axiom_key_sound of C04. The occurrence-count '
+            'clause ("counter n => at least n+1 occurrences") is not proved.'),
     'C16': 'byte-level behaviour of zip / std::fs / Bdd::write_as_string: straight-line glue over foreign crates through io::Write trait machinery that Verus cannot type; a contract would have to assume a model of zip archives that *is* the property (DESIGN.md section 6)',
+    'C17': ('the observable is process-level (argv parsing by clap, stdout text, exit status, files and zip archives written and read back); the library half '
+            '(load_formulae, analyse_formulae) is string / file glue over std::fs, println! and the foreign model parsers, none of which has a Verus specification; '
+            'a contract would consist of assumed models of exactly the parts the property is about. The evaluation the tool performs is covered by C01 / C04 / C15.'),
+    'C19': ('not decided in this round: explode_function / flatten_fn_update operate on the foreign types FnUpdate / BooleanNetwork of biodivine-lib-param-bn; a contract needs an '
+            'assumed evaluation semantics of FnUpdate and of BooleanNetwork::{add_parameter, find_parameter, set_update_function, as_graph} and the bnet printer / parser, '
+            'which together are most of the property; the remaining in-memory part (Shannon expansion enumerates each valuation once) was not built.'),
 }
 for _p in ['C%02d' % i for i in range(1, 21)]:
     NOT_APPLICABLE.setdefault(_p, _NOT_YET)
